@@ -251,8 +251,27 @@ class C12(Prop):
         risky = any(ch in text for ch in ('"', '\n', '(', ')', ':', "\\'")) and any(p != 'argument' for p in classes)
         return OK(risky, classes + ['accepted'])
 
+
+    def fuzz_campaign(self, tier, seed):
+        """thorough tier: coverage-guided campaign through the same decision function; every failure is re-decided here"""
+        from .. import fuzzdrv
+        from ..runner import OK
+        if tier != 'thorough':
+            return []
+        info, fails = fuzzdrv.campaign(self.id, seed)
+        self.fuzz_info = info
+        out = []
+        for f in fails:
+            case = f['case']
+            out.append((case, self.decide(case)))
+        return out
+
     # ------------------------------------------------------------------ run-time table, enumerated exhaustively
     def extra_checks(self, tier, seed):
+        fz = self.fuzz_campaign(tier, seed)
+        return fz + self.runtime_table(tier, seed)
+
+    def runtime_table(self, tier, seed):
         import builtins
         yp0 = impl.YP()
         names = set(yp0.eval_context) | set(yp0.eval_blacklist) | set(dir(yp0)) | set(dir(builtins))
